@@ -25,6 +25,7 @@ var c13Inputs = []struct{ id, src string }{
 	{"imports-blank-alias-conv", "//go:build convergen\n\npackage p\n\nimport (\n\t\"example.com/m/ext\"\n\to \"example.com/m/ext/other\"\n\t_ \"example.com/m/ext/v2\"\n)\n\ntype S struct {\n\tA int\n\tB string\n\tC int\n}\n\ntype D struct {\n\tA ext.EInt\n\tB string\n\tC o.OInt\n}\n\n// :typecast\ntype Convergen interface {\n\t// :conv ext.Itoa A B\n\tConv(*S) *D\n}\n"},
 	{"two-blank-same-name", "//go:build convergen\n\npackage p\n\nimport (\n\t_ \"example.com/m/ext/other\"\n\t_ \"example.com/m/ext/v2\"\n)\n\ntype S struct{ A int }\n\ntype D struct{ A int }\n\ntype Convergen interface {\n\t// :conv ext.Conv A\n\tConv(*S) *D\n}\n"},
 	{"blank-shadowing-named", "//go:build convergen\n\npackage p\n\nimport (\n\t\"example.com/m/ext\"\n\t_ \"example.com/m/ext/v2\"\n)\n\nvar _ ext.EInt\n\ntype S struct{ A int }\n\ntype D struct{ A string }\n\ntype Convergen interface {\n\t// :conv ext.Itoa A\n\tConv(*S) *D\n}\n"},
+	{"alias-equals-other-base-name", "//go:build convergen\n\npackage p\n\nimport (\n\te \"example.com/m/ext\"\n\text \"example.com/m/ext/v2\"\n)\n\nvar _ e.EInt\n\ntype S struct{ A int }\n\ntype D struct{ A int }\n\ntype Convergen interface {\n\t// :conv ext.Conv A\n\tConv(*S) *D\n}\n"},
 	{"imported-hook", "//go:build convergen\n\npackage p\n\nimport (\n\te \"example.com/m/ext\"\n\t_ \"example.com/m/ext/other\"\n)\n\ntype Convergen interface {\n\t// :postprocess e.HookSDErr\n\tConv(*e.S) (*e.D, error)\n}\n"},
 	{"two-interfaces", cliInputs[2].src},
 	{"three-interfaces", "//go:build convergen\n\npackage p\n\nimport \"example.com/m/ext\"\n\ntype S struct {\n\tA int\n\tL []int\n}\n\ntype D struct {\n\tA ext.EInt\n\tL []ext.EInt\n}\n\n// :typecast\ntype Convergen interface {\n\tZeta(*S) *D\n\tAlpha(*S) *D\n}\n\n// :convergen\ntype B interface {\n\tMid(*S) *D\n}\n\nvar Between = 1\n\n// :convergen\n// :typecast\ntype A interface {\n\t// :recv s\n\tLast(*S) *D\n}\n"},
@@ -313,7 +314,7 @@ func init() {
 			e.Rep.AddEvaluations(1)
 			e.Rep.AddValidated(1)
 			e.Rep.Outcome(fmt.Sprintf("%s exit=%d", c13Inputs[j.in].id, refs[j.in].Exit))
-			if (j.env.Marker != 1 || j.env.MapOrder != "asc") && j.in != 7 && j.in != 6 {
+			if (j.env.Marker != 1 || j.env.MapOrder != "asc") && c13Inputs[j.in].id != "rejected" && c13Inputs[j.in].id != "no-match-warnings" {
 				e.Rep.Nontrivial(fmt.Sprintf("%d|%+v", j.in, j.env))
 			}
 			mu.Lock()
